@@ -1,0 +1,28 @@
+package streams
+
+import (
+	"io"
+	"net"
+)
+
+// drainedStream works around a race in smux v1.5.14 (xtaci/smux#82): when the last data frame and the
+// stream's FIN arrive after a Read has found the buffer empty but before it starts waiting, the wait may
+// pick the FIN and report io.EOF although that data is still buffered. A further Read returns the buffered
+// data (and io.EOF again once it is gone), so end-of-stream is only passed on when it is seen twice in a row.
+type drainedStream struct {
+	net.Conn
+}
+
+// NewDrainedStream wraps a multiplexer stream so that it reports end-of-stream only after all received
+// data has been read.
+func NewDrainedStream(stream net.Conn) net.Conn {
+	return &drainedStream{Conn: stream}
+}
+
+func (d *drainedStream) Read(b []byte) (n int, err error) {
+	n, err = d.Conn.Read(b)
+	if n == 0 && err == io.EOF && len(b) > 0 {
+		n, err = d.Conn.Read(b)
+	}
+	return n, err
+}
